@@ -240,7 +240,7 @@ class Device(object):
             s.out.clear()                 # the service dies: the stream is closed instead of the next WRTE
             s.finished = True
         if getattr(s, 'endless', False) and not s.out:
-            s.out.append(b'more-%d;' % len(s.wrote))       # a command that never finishes (logcat-like)
+            s.out.append(b'' if self.cfg.get('endless_empty') else b'more-%d;' % len(s.wrote))       # a command that never finishes (logcat-like); endless_empty: zero-length keep-alive writes
         while self.cfg.get('flood') and len(s.out) > 1:
             # a device without stop-and-wait (not adbd; canned test devices and some old firmware behave like this): everything at once
             payload = s.out.popleft()
